@@ -25,11 +25,7 @@ def fmtFails (l : List String) : String := if l.isEmpty then "ok" else "fail:" +
 /-- `c09valid N=.. D= B= U= C=  mN= mD= mB= mU= mC=  [sN= sD= sB=]` → `ok` | `fail:<clauses>`;
     first graph = the PAG, `m…` = the graph returned by the implementation, `s…` = the source MAG -/
 def hValid : Handler := fun a =>
-  let P := a.graph
-  let M := graphP a "m"
-  let f1 := firstFails P M
-  let f2 := if a.has "sN" then secondFails (graphP a "s") M else []
-  fmtFails (f1 ++ f2)
+  fmtFails (validFails a.graph (graphP a "m") (if a.has "sN" then some (graphP a "s") else none))
 
 /-- `c09struct …` → only the structural clauses (any well-formed PAG instance) -/
 def hStruct : Handler := fun a => fmtFails (structuralFails a.graph (graphP a "m"))
